@@ -17,6 +17,7 @@ func init() {
 	specials["fallback-rescues-with-nil"] = fallbackRescuesWithNil
 	specials["typed-struct-slice-items"] = typedStructSliceItems
 	specials["half-retry-interface"] = halfRetryInterface
+	specials["embedded-flow-rescued-by-fallback"] = embeddedFlowRescuedByFallback
 }
 
 type r18ItemErr struct {
@@ -393,6 +394,51 @@ func halfRetryInterface() (fs []finding) {
 				if e != 1 || p != 1 || (r.err != nil) != wantErr || (po != 0) == wantErr {
 					fs = append(fs, finding{"half-retry-interface:" + kind, fmt.Sprintf("plain node with %s (it does not implement RetryableNode, so it exposes no retry settings), first %d attempt(s) fail, in a flow: %v — prep x%d, exec x%d, post x%d, run returned (%q, %v); want exactly one attempt, and %s", kind, failFirst, inFlow, p, e, po, r.act, r.err, map[bool]string{true: "a failed run without post", false: "a successful run with post once"}[wantErr])})
 				}
+			}
+		}
+	}
+	return fs
+}
+
+// r18RescuingFlow embeds a *flyt.Flow and rescues a failed run of it through its own fallback.
+type r18RescuingFlow struct {
+	*flyt.Flow
+	rescue  any
+	fbCalls *int
+}
+
+func (f *r18RescuingFlow) ExecFallback(p any, err error) (any, error) { *f.fbCalls++; return f.rescue, nil }
+
+// embeddedFlowRescuedByFallback (C04): a node type that embeds a flow and whose fallback rescues the failed inner run
+// with a nil error (a nil value, a string, an Action): every phase on the path succeeded after retries and fallback,
+// so the run returns a nil error and the outer flow goes on — whatever action the rescued step reports.
+func embeddedFlowRescuedByFallback() (fs []finding) {
+	for ri, rescue := range []any{nil, "rescued", flyt.Action("rescued"), 7} {
+		for _, depth := range []int{0, 1, 2} {
+			innerCalls, fbCalls, after := 0, 0, 0
+			sentinel := errors.New("inner node fails")
+			x := flyt.NewNode().WithExecFuncAny(func(context.Context, any) (any, error) { innerCalls++; return nil, sentinel })
+			emb := &r18RescuingFlow{Flow: flyt.NewFlow(x), rescue: rescue, fbCalls: &fbCalls}
+			probe := flyt.NewNode().WithExecFuncAny(func(context.Context, any) (any, error) { after++; return nil, nil })
+			var run flyt.Node = emb
+			if depth > 0 {
+				outer := flyt.NewFlow(emb)
+				for _, a := range []flyt.Action{flyt.DefaultAction, "rescued"} {
+					outer.Connect(emb, a, probe)
+				}
+				run = outer
+				if depth > 1 {
+					run = flyt.NewFlow(outer)
+				}
+			}
+			act, err := flyt.Run(context.Background(), run, flyt.NewSharedStore())
+			if innerCalls != 1 || fbCalls != 1 {
+				continue // (another property's subject: the attempts / the fallback hand-off)
+			}
+			if err != nil {
+				fs = append(fs, finding{"rescued-embedded-flow-fails", fmt.Sprintf("a node type embedding *flyt.Flow whose fallback rescues the failed inner run with (%T %v, nil), %d flow level(s) around it (rescue value #%d): every phase on the path succeeded after the fallback, yet the run returned error %q", rescue, rescue, depth, ri, err)})
+			} else if act == "" {
+				fs = append(fs, finding{"rescued-embedded-flow-empty-action", fmt.Sprintf("rescued embedded flow (rescue %T %v, depth %d): run succeeded with the empty action", rescue, rescue, depth)})
 			}
 		}
 	}
